@@ -2,7 +2,7 @@
     Subject: Gen.Plan.fil_plan (the block arithmetic of FilReader.read_plan, regenerated from readers.py on
     every run) executed by Model/Plan.v (hand model of the loop body) on Model/Stream.v (C02). *)
 From Coq Require Import ZArith List Bool Lia.
-Require Import SPP.Base.Rt SPP.Gen.Plan SPP.Gen.Kernels SPP.Model.Bits SPP.Model.Stream SPP.Model.Plan SPP.Model.PlanPacked SPP.Proofs.C02_stream SPP.Proofs.C01_plan SPP.Proofs.C01_packed.
+Require Import SPP.Base.Rt SPP.Gen.Plan SPP.Gen.Kernels SPP.Model.Bits SPP.Model.Stream SPP.Model.Plan SPP.Model.PlanPacked SPP.Model.PlanForms SPP.Proofs.C02_stream SPP.Proofs.C01_plan SPP.Proofs.C01_packed SPP.Proofs.C01_forms.
 Import ListNotations.
 Open Scope Z_scope.
 
@@ -84,3 +84,71 @@ Example C01_example :
      = slice (flat fs) (1 * 2) (5 * 2)
   /\ total fs = 7 * 2.
 Proof. vm_compute. repeat split; reflexivity. Qed.
+
+(** ---- the call forms of read_plan (Model/PlanForms.v; the default of nsamps is Gen.Plan.fil_plan_nsamps, regenerated) ---- *)
+
+(** nsamps left out (None, the default): the plan runs to the end of the set -- the stitched blocks are every sample from
+    [start] on, exactly once and in order, for every split into files (members without any sample included: nothing is
+    assumed of the members but their total length), every gulp and every skipback, of either sign, below the effective gulp *)
+Theorem C01_plan_to_end : forall fs nch N gulp0 start skipback0,
+  1 <= nfiles fs -> 1 <= nch -> total fs = N * nch -> 0 <= start < N -> 1 <= gulp0 ->
+  Z.abs skipback0 < Z.min (N - start) gulp0 ->
+  exists bl, run_plan_opt fs nch gulp0 start None skipback0 = POk bl /\
+    stitch (Z.abs skipback0 * nch) bl = skipn (Z.to_nat (start * nch)) (flat fs) /\
+    Forall (block_ok nch gulp0) bl /\
+    map (fun b => snd (fst b)) bl = zrange (len (map (fun _ => 0) bl)).
+Proof. exact plan_to_end_sound. Qed.
+Print Assumptions C01_plan_to_end.
+
+(** nsamps given is the plan of C01_plan_sound *)
+Theorem C01_plan_given : forall fs nch gulp0 start n skipback0,
+  run_plan_opt fs nch gulp0 start (Some n) skipback0 = run_plan fs nch gulp0 start n skipback0.
+Proof. exact run_plan_opt_some. Qed.
+Print Assumptions C01_plan_given.
+
+(** nsamps left out with nothing left to read (start at or beyond the last sample), or with a skipback, of either sign, not
+    below the effective gulp min(N - start, gulp) -- above the nominal gulp included: refused before anything is yielded *)
+Theorem C01_plan_to_end_reject : forall fs nch N gulp0 start skipback0, 1 <= nch -> total fs = N * nch ->
+  Z.abs skipback0 >= Z.min (N - start) gulp0 -> run_plan_opt fs nch gulp0 start None skipback0 = PErr [] ValueError.
+Proof. exact plan_to_end_reject. Qed.
+Print Assumptions C01_plan_to_end_reject.
+
+(** the sign of skipback is ignored, whatever the other arguments (honoured and refused plans alike) *)
+Theorem C01_plan_skipback_sign : forall fs nch gulp0 start nsamps skipback0,
+  run_plan_opt fs nch gulp0 start nsamps (- skipback0) = run_plan_opt fs nch gulp0 start nsamps skipback0.
+Proof. exact run_plan_opp. Qed.
+Print Assumptions C01_plan_skipback_sign.
+
+(** the overlap clause: in every honoured plan each block after the first begins with the last skipback samples of the block
+    before it ("its leading skipback samples, which repeat the tail of the previous block") *)
+Theorem C01_plan_overlap : forall fs nch N gulp0 start nsamps skipback0,
+  1 <= nfiles fs -> 1 <= nch -> total fs = N * nch ->
+  0 <= start -> 1 <= nsamps -> start + nsamps <= N -> 1 <= gulp0 ->
+  Z.abs skipback0 < Z.min nsamps gulp0 ->
+  exists bl, run_plan fs nch gulp0 start nsamps skipback0 = POk bl /\ overlaps (Z.abs skipback0 * nch) bl.
+Proof. exact plan_overlap. Qed.
+Print Assumptions C01_plan_overlap.
+
+Theorem C01_plan_to_end_overlap : forall fs nch N gulp0 start skipback0,
+  1 <= nfiles fs -> 1 <= nch -> total fs = N * nch -> 0 <= start < N -> 1 <= gulp0 ->
+  Z.abs skipback0 < Z.min (N - start) gulp0 ->
+  exists bl, run_plan_opt fs nch gulp0 start None skipback0 = POk bl /\ overlaps (Z.abs skipback0 * nch) bl.
+Proof. exact plan_to_end_overlap. Qed.
+Print Assumptions C01_plan_to_end_overlap.
+
+(** non-vacuity: three members, the first and the middle one without any sample, 5 samples of 2 channels, nsamps left out,
+    start 1, gulp 3, skipback -1: blocks of 3 and 2 samples; the second begins with the last sample of the first *)
+Example C01_example_to_end :
+  let fs := [mkfile [224] []; mkfile [225] [10; 11; 20; 21; 30; 31]; mkfile [226] []; mkfile [227] [40; 41; 50; 51]] in
+  run_plan_opt fs 2 3 1 None (-1) = POk [(3, 0, [20; 21; 30; 31; 40; 41]); (2, 1, [40; 41; 50; 51])]
+  /\ stitch (Z.abs (-1) * 2) [(3, 0, [20; 21; 30; 31; 40; 41]); (2, 1, [40; 41; 50; 51])] = skipn (Z.to_nat (1 * 2)) (flat fs)
+  /\ overlaps (Z.abs (-1) * 2) [(3, 0, [20; 21; 30; 31; 40; 41]); (2, 1, [40; 41; 50; 51])]
+  /\ total fs = 5 * 2 /\ 1 <= nfiles fs /\ Z.abs (-1) < Z.min (5 - 1) 3.
+Proof. vm_compute. repeat split; try reflexivity; discriminate. Qed.
+
+(** non-vacuity of the refusals: nothing left (start = N), and |skipback| between the effective and the nominal gulp *)
+Example C01_example_to_end_reject :
+  let fs := [mkfile [224] [10; 11; 20; 21]; mkfile [225] []] in
+  run_plan_opt fs 2 3 2 None 0 = PErr [] ValueError /\ run_plan_opt fs 2 5 1 None (-2) = PErr [] ValueError
+  /\ total fs = 2 * 2 /\ Z.abs 0 >= Z.min (2 - 2) 3 /\ Z.abs (-2) >= Z.min (2 - 1) 5.
+Proof. vm_compute. repeat split; try reflexivity; discriminate. Qed.
